@@ -960,7 +960,8 @@ class SubprocSpec:
         if fname is None:
             cmd0 = self.cmd[0] if self.cmd else None
             if cmd0 and _has_path_component(cmd0) and os.path.isfile(cmd0):
-                fname = os.path.abspath(cmd0)
+                # not abspath(): ``lnk/../x`` must stay what the kernel resolves
+                fname = os.path.join(os.getcwd(), cmd0)
         if fname is None:
             return
         try:
